@@ -1,9 +1,9 @@
 package main
 
 import (
-	"sort"
 	"go/token"
 	"go/types"
+	"sort"
 	"strings"
 
 	"golang.org/x/tools/go/ssa"
@@ -543,7 +543,6 @@ func refusesSecondAdmission(f *ssa.Function) bool {
 	return ok
 }
 
-
 // r15_5: every goroutine that runs an underlay's event loop closes that
 // underlay when the loop returns, whatever it returned: a peer that went away
 // (EOF, closed, nil) must still release the sessions blocked on it.
@@ -629,100 +628,100 @@ func r15_6(c *RC) {
 		n := 0
 		// the timer may be created in a helper of fn (readDeadlineChan())
 		for _, host := range withHelpers(p, fn, 2) {
-		host := host
-		instrs(host, func(b *ssa.BasicBlock, _ int, in ssa.Instruction) {
-			cl, ok := in.(*ssa.Call)
-			if !ok {
-				return
-			}
-			id := calleeID(cl)
-			if id != "time.After" && id != "time.NewTimer" && id != "time.AfterFunc" {
-				return
-			}
-			// only timers whose duration derives from a stored deadline
-			fromDeadline := false
-			var walk func(v ssa.Value, d int)
-			seen := map[ssa.Value]bool{}
-			walk = func(v ssa.Value, d int) {
-				if v == nil || seen[v] || d > 10 {
+			host := host
+			instrs(host, func(b *ssa.BasicBlock, _ int, in ssa.Instruction) {
+				cl, ok := in.(*ssa.Call)
+				if !ok {
 					return
 				}
-				seen[v] = true
-				switch x := v.(type) {
-				case *ssa.Call:
-					if calleeName(x) == "Load" {
-						if f := fieldOrigin(x.Call.Args[0]); f != nil && strings.HasSuffix(f.Name(), "Deadline") {
-							fromDeadline = true
+				id := calleeID(cl)
+				if id != "time.After" && id != "time.NewTimer" && id != "time.AfterFunc" {
+					return
+				}
+				// only timers whose duration derives from a stored deadline
+				fromDeadline := false
+				var walk func(v ssa.Value, d int)
+				seen := map[ssa.Value]bool{}
+				walk = func(v ssa.Value, d int) {
+					if v == nil || seen[v] || d > 10 {
+						return
+					}
+					seen[v] = true
+					switch x := v.(type) {
+					case *ssa.Call:
+						if calleeName(x) == "Load" {
+							if f := fieldOrigin(x.Call.Args[0]); f != nil && strings.HasSuffix(f.Name(), "Deadline") {
+								fromDeadline = true
+							}
+						}
+						for _, a := range x.Call.Args {
+							walk(a, d+1)
+						}
+					case *ssa.Phi:
+						for _, e := range x.Edges {
+							walk(e, d+1)
+						}
+					case *ssa.BinOp:
+						walk(x.X, d+1)
+						walk(x.Y, d+1)
+					case *ssa.Convert:
+						walk(x.X, d+1)
+					}
+				}
+				walk(cl.Call.Args[0], 0)
+				if !fromDeadline {
+					return
+				}
+				n++
+				classify := func(v ssa.Value) string {
+					switch x := v.(type) {
+					case *ssa.Call:
+						if b, ok := x.Call.Value.(*ssa.Builtin); ok && b.Name() == "len" {
+							return "len"
+						}
+						switch calleeName(x) {
+						case "Load":
+							if f := fieldOrigin(x.Call.Args[0]); f != nil && strings.HasSuffix(f.Name(), "Deadline") {
+								return "deadline"
+							}
+						case "IsLevelEnabled":
+							return "logging"
+						}
+						return "?" + calleeName(x)
+					case *ssa.Parameter:
+						return "arg"
+					}
+					return ""
+				}
+				seenV := map[string]bool{}
+				gate := []*ssa.BasicBlock{b}
+				if chain, ok := callChain(p, fn, host, 2); ok {
+					for _, cs := range chain {
+						gate = append(gate, cs.Block())
+					}
+				} else {
+					seenV["?call-sites-of-"+host.Name()] = true
+				}
+				for _, gb := range gate {
+					for _, ce := range controlConds(gb.Parent(), gb) {
+						for _, k := range condVocab(ce.If.Cond, classify) {
+							seenV[k] = true
 						}
 					}
-					for _, a := range x.Call.Args {
-						walk(a, d+1)
-					}
-				case *ssa.Phi:
-					for _, e := range x.Edges {
-						walk(e, d+1)
-					}
-				case *ssa.BinOp:
-					walk(x.X, d+1)
-					walk(x.Y, d+1)
-				case *ssa.Convert:
-					walk(x.X, d+1)
 				}
-			}
-			walk(cl.Call.Args[0], 0)
-			if !fromDeadline {
-				return
-			}
-			n++
-			classify := func(v ssa.Value) string {
-				switch x := v.(type) {
-				case *ssa.Call:
-					if b, ok := x.Call.Value.(*ssa.Builtin); ok && b.Name() == "len" {
-						return "len"
-					}
-					switch calleeName(x) {
-					case "Load":
-						if f := fieldOrigin(x.Call.Args[0]); f != nil && strings.HasSuffix(f.Name(), "Deadline") {
-							return "deadline"
-						}
-					case "IsLevelEnabled":
-						return "logging"
-					}
-					return "?" + calleeName(x)
-				case *ssa.Parameter:
-					return "arg"
-				}
-				return ""
-			}
-			seenV := map[string]bool{}
-			gate := []*ssa.BasicBlock{b}
-			if chain, ok := callChain(p, fn, host, 2); ok {
-				for _, cs := range chain {
-					gate = append(gate, cs.Block())
-				}
-			} else {
-				seenV["?call-sites-of-"+host.Name()] = true
-			}
-			for _, gb := range gate {
-				for _, ce := range controlConds(gb.Parent(), gb) {
-					for _, k := range condVocab(ce.If.Cond, classify) {
-						seenV[k] = true
+				var foreign []string
+				for k := range seenV {
+					if strings.HasPrefix(k, "?") {
+						foreign = append(foreign, k[1:])
 					}
 				}
-			}
-			var foreign []string
-			for k := range seenV {
-				if strings.HasPrefix(k, "?") {
-					foreign = append(foreign, k[1:])
+				key := "deadline-arms-timer@" + fname
+				if len(foreign) == 0 && seenV["deadline"] {
+					c.OKH(key, in.Pos(), "the timer is created whenever the loaded deadline is non-zero")
+				} else {
+					c.Bad(key, in.Pos(), "%s creates the deadline timer only under a condition on %v: for some stored deadlines (e.g. one that already passed) no timer exists and the call is no longer bounded by the deadline", fname, foreign)
 				}
-			}
-			key := "deadline-arms-timer@" + fname
-			if len(foreign) == 0 && seenV["deadline"] {
-				c.OKH(key, in.Pos(), "the timer is created whenever the loaded deadline is non-zero")
-			} else {
-				c.Bad(key, in.Pos(), "%s creates the deadline timer only under a condition on %v: for some stored deadlines (e.g. one that already passed) no timer exists and the call is no longer bounded by the deadline", fname, foreign)
-			}
-		})
+			})
 		}
 		if n == 0 {
 			c.Bad("deadline-arms-timer@"+fname, fn.Pos(), "%s creates no timer from the stored deadline", fname)
@@ -882,7 +881,6 @@ func r15_7(c *RC) {
 		c.Bad("close-takes-no-waiting-lock", closeFn.Pos(), "%s: Close then waits for the very call it is supposed to release, and neither returns", strings.Join(bad, "; "))
 	}
 }
-
 
 // polledChans: the channel fields an instruction polls without blocking -
 // directly (select with default) or through a small helper whose body is
